@@ -116,7 +116,7 @@ fn apply(sess: &Sess, callee: &str, args: &[MV]) -> Obs {
 
 fn reload(text: &str) -> Result<(Sess, Value), String> {
     let v: serde_json::Value = serde_json::from_str(text).map_err(|e| format!("emitted JSON invalid: {}", e))?;
-    let sv = SerializableValue::from_json(&v);
+    let sv = crate::blots::from_json(&v);
     if !matches!(sv, SerializableValue::Lambda(_) | SerializableValue::BuiltIn(_)) {
         return Err("not-a-function".into());
     }
